@@ -1,5 +1,6 @@
 import Iavl.Lemmas.AvlRemove
 import Iavl.Lemmas.GetRank
+import Iavl.Lemmas.SortedMap
 /-
   C11 — every version is a balanced ordered tree; lookup by key and by rank agree with sorted order.
   The real-valued bound h ≤ 1.4405·log2(n+2) follows from `fib (h+2) ≤ n` by the classical estimate
@@ -29,6 +30,32 @@ theorem lookup_by_key (t : Node K V) (key : K) (ho : Ordered t) (hs : SizeOK t) 
 /-- lookup by rank returns the i-th pair of the sorted contents; out of range is `none` -/
 theorem lookup_by_rank (t : Node K V) (i : Nat) (hs : SizeOK t) : t.getByIndex i = t.toList[i]? :=
   getByIndex_eq t i hs
+
+/-- lookup by rank inverts lookup by key: a present key is found at its own rank -/
+theorem rank_then_index (t : Node K V) (key : K) (v : V) (ho : Ordered t) (hs : SizeOK t)
+    (h : lookup key t.toList = some v) : t.getByIndex (t.get key).1 = some (key, v) := by
+  rw [get_eq t key ho hs, getByIndex_eq t _ hs]
+  exact getElem_rank_of_lookup t.toList (sortedKV_toList t ho) key v h
+
+/-- lookup by key inverts lookup by rank: the pair at rank i has index i and its own value -/
+theorem index_then_rank (t : Node K V) (i : Nat) (p : K × V) (ho : Ordered t) (hs : SizeOK t)
+    (h : t.getByIndex i = some p) : t.get p.1 = (i, some p.2) := by
+  rw [getByIndex_eq t i hs] at h
+  rw [get_eq t p.1 ho hs, rank_getElem t.toList (sortedKV_toList t ho) i p h]
+  congr 1
+  have hm : p ∈ t.toList := List.mem_of_getElem? h
+  -- the key of a member is found with its value (keys are unique in a sorted map)
+  have := getElem_rank_of_lookup t.toList (sortedKV_toList t ho) p.1
+  cases hl : lookup p.1 t.toList with
+  | none =>
+    exfalso
+    have := (lookup_none_iff' p.1 t.toList).mp hl
+    exact this p hm (cmp_eq_iff.mpr rfl)
+  | some v =>
+    have h2 := this v hl
+    rw [rank_getElem t.toList (sortedKV_toList t ho) i p h, h] at h2
+    simp only [Option.some.injEq] at h2
+    rw [h2]
 
 theorem size_is_count (t : Node K V) (h : SizeOK t) : t.size = t.toList.length := size_eq_length t h
 
